@@ -129,6 +129,28 @@ fn value_for(tag: u64, len: usize) -> Vec<u8> {
         .collect()
 }
 
+
+/// H15 oracle (C19): under a shard's lock, the counter the coordinator looks at equals the number
+/// of entries in the shard's queue.  The first violation seen is kept.
+static BACKLOG_BROKEN: Mutex<Option<String>> = Mutex::new(None);
+
+pub fn sample_backlog(store: &FeoxStore) {
+    for (i, (queue, count)) in store.verif_shard_backlog().into_iter().enumerate() {
+        if queue != count {
+            let mut g = BACKLOG_BROKEN.lock().unwrap();
+            if g.is_none() {
+                *g = Some(format!("shard={i} queued={queue} counter={count}"));
+            }
+        }
+    }
+}
+
+pub fn backlog_verdict(g: &Option<String>) -> Option<String> {
+    let s = g.as_deref()?;
+    let at = s.find("BACKLOG-BROKEN")?;
+    Some(format!("FAIL shard-counter-differs-from-its-queue {}", s[at + 15..].replace(' ', "_")))
+}
+
 /// child: path= seed= blocks= ops= sync=0|1 ttl=0|1 faults=<idx:before|after,...> persist_from=<idx>
 pub fn tracegen(opts: &Opts) -> i32 {
     let path = opts.str("path", "");
@@ -297,6 +319,7 @@ pub fn tracegen(opts: &Opts) -> i32 {
             tracer.note(format!("{seq} HEAL"));
         }
         let st = store.as_ref().unwrap();
+        sample_backlog(st);
         let mut k = format!("key{}", rng.below(nkeys)).into_bytes();
         // now and then a key as long as a persistent store accepts
         // (4066 bytes: the v3 header 4+2+key+24 then fills the head sector exactly) and one byte less
@@ -413,10 +436,19 @@ pub fn tracegen(opts: &Opts) -> i32 {
                     r.as_ref().map(|_| "ok".to_string()).unwrap_or_else(|e| err_name(e))
                 ));
                 j += 1;
+                sample_backlog(st);
                 std::thread::sleep(std::time::Duration::from_millis(1 + j % 7));
             }
         } else {
-            std::thread::sleep(std::time::Duration::from_millis(settle));
+            while std::time::Instant::now() < deadline {
+                if let Some(st) = store.as_ref() {
+                    sample_backlog(st);
+                }
+                std::thread::sleep(std::time::Duration::from_millis(20));
+            }
+        }
+        if let Some(st) = store.as_ref() {
+            sample_backlog(st);
         }
         let ret = tracer.next();
         tracer.note(format!("{inv} FLUSH ret={ret} res=ok settled-without-flush"));
@@ -457,7 +489,10 @@ pub fn tracegen(opts: &Opts) -> i32 {
         writeln!(f, "{l}").unwrap();
     }
     std::fs::write(format!("{path}.data"), &*tracer.data.lock().unwrap()).unwrap();
-    println!("tracegen-done events={}", log.len());
+    match BACKLOG_BROKEN.lock().unwrap().as_ref() {
+        Some(why) => println!("tracegen-done events={} BACKLOG-BROKEN {why}", log.len()),
+        None => println!("tracegen-done events={}", log.len()),
+    }
     let _ = std::io::stdout().flush();
     unsafe { libc::_exit(0) }
 }
@@ -1046,6 +1081,9 @@ pub fn run(opts: &Opts) -> i32 {
                     out.emit3(&format!("note tracegen-failed {:?}", g), "note", "FAIL workload-child-failed-or-hung");
                     continue;
                 }
+                if let Some(v) = backlog_verdict(&g) {
+                    out.emit3("note shard-counter", "note", &v);
+                }
                 let Some(t) = load_trace(&base) else {
                     out.emit3("note trace-unreadable", "note", "FAIL trace-unreadable");
                     continue;
@@ -1141,11 +1179,15 @@ pub fn lagfull(opts: &Opts) -> i32 {
     }
     let mut verdict = format!("FAIL write-accepted-while-the-device-was-full-is-still-not-on-the-device-{}ms-after-space-was-freed", 4000);
     while t0.elapsed() < std::time::Duration::from_millis(4000) {
+        sample_backlog(&store);
         if published(&store, &victim) {
             verdict = format!("ok durable-after-ms={}", t0.elapsed().as_millis());
             break;
         }
         std::thread::sleep(std::time::Duration::from_millis(50));
+    }
+    if let Some(why) = BACKLOG_BROKEN.lock().unwrap().as_ref() {
+        verdict = format!("FAIL shard-counter-differs-from-its-queue {} ({})", why.replace(' ', "_"), verdict.replace(' ', "_"));
     }
     println!("lagfull {verdict}");
     use std::io::Write;
@@ -1191,6 +1233,7 @@ pub fn lagburst(opts: &Opts) -> i32 {
     let mut missing = u64::MAX;
     let mut verdict = String::new();
     while t0.elapsed() < bound {
+        sample_backlog(&store);
         missing = store.verif_snapshot().iter().filter(|r| r.sector == 0).count() as u64;
         if missing == 0 {
             verdict = format!("ok accepted={accepted} durable-after-ms={}", t0.elapsed().as_millis());
@@ -1200,6 +1243,9 @@ pub fn lagburst(opts: &Opts) -> i32 {
     }
     if verdict.is_empty() {
         verdict = format!("FAIL accepted-writes-still-not-on-the-device-{}ms-after-the-burst-ended accepted={accepted} not-written={missing}", bound.as_millis());
+    }
+    if let Some(why) = BACKLOG_BROKEN.lock().unwrap().as_ref() {
+        verdict = format!("FAIL shard-counter-differs-from-its-queue {} ({})", why.replace(' ', "_"), verdict.replace(' ', "_"));
     }
     println!("lagburst {verdict}");
     use std::io::Write;
@@ -1311,6 +1357,9 @@ pub fn run_lag(opts: &Opts) -> i32 {
                 if g.as_deref().map_or(true, |s| !s.starts_with("tracegen-done")) {
                     out.emit3(&format!("note tracegen-failed {:?}", g), "note", "FAIL workload-child-failed-or-hung");
                     continue;
+                }
+                if let Some(v) = backlog_verdict(&g) {
+                    out.emit3("note shard-counter", "note", &v);
                 }
                 let Some(t) = load_trace(&base) else {
                     out.emit3("note trace-unreadable", "note", "FAIL trace-unreadable");
@@ -1641,6 +1690,9 @@ pub fn run_recrash(opts: &Opts) -> i32 {
                 if g.as_deref().map_or(true, |s| !s.starts_with("tracegen-done")) {
                     out.emit3(&format!("note tracegen-failed {:?}", g), "note", "FAIL workload-child-failed-or-hung");
                     continue;
+                }
+                if let Some(v) = backlog_verdict(&g) {
+                    out.emit3("note shard-counter", "note", &v);
                 }
                 let Some(t) = load_trace(&base) else { continue };
                 // first-level crash images whose recovery has something to repair are the interesting ones
